@@ -369,6 +369,8 @@ fn mode_interleave(rng: &mut Rng, n_cases: u64, max_len: u64, noise_keys: u64, d
         // with `disorder` every victim key runs on its own (non-decreasing) clock, so the merged
         // history is not globally ordered
         let mut vclock: Vec<i128> = (0..nvict).map(|i| now - (i as i128) * 50_000_000).collect();
+        // expiry instant of each victim's stored state (time of its last admitted write + reset_after)
+        let mut vexp: Vec<Option<i128>> = vec![None; nvict as usize];
         for _ in 0..n {
             now += match rng.below(6) { 0 | 1 => 0, 2 => 1, 3 => rng.range(0, 1_000_000) as i128, 4 => rng.range(0, 2_000_000_000) as i128, _ => rng.range(0, 70_000_000_000) as i128 };
             now = now.min(YEAR2100);
@@ -379,7 +381,12 @@ fn mode_interleave(rng: &mut Rng, n_cases: u64, max_len: u64, noise_keys: u64, d
                     let e = emission_ns(count, period) as i128;
                     vclock[vi] = (vclock[vi] + (rng.next() as i128 % (e / 2 + 2))).min(YEAR2100);
                     vclock[vi]
-                } else { now };
+                } else {
+                    // 1 in 4: land exactly on (or 1 ns around) the instant the victim's stored state expires - whether a sweep is
+                    // due at that moment depends on the OTHER keys' traffic
+                    if let Some(ex) = vexp[vi] { if ex >= now && ex <= YEAR2100 && rng.chance(1, 4) { now = (ex + *rng.pick(&[0i128, 0, 0, -1, 1])).max(now); } }
+                    now
+                };
                 let q = match rng.below(5) { 0 => 0, 1 | 2 => 1, 3 => b, _ => rng.range(0, b + 1) };
                 Req { key: vkeys[vi], b, count, period, q, now }
             } else {
@@ -389,6 +396,9 @@ fn mode_interleave(rng: &mut Rng, n_cases: u64, max_len: u64, noise_keys: u64, d
                 Req { key, b, count, period, q: *rng.pick(&[0i64, 1, 1, 2, -1, i64::MAX]), now }
             };
             let st = do_step(&mut lim, &req);
+            if let Some(vi) = vkeys.iter().take(nvict as usize).position(|&k| k == req.key) {
+                if let Out::Ok { allowed: true, reset, .. } = &st.out { if req.q > 0 { vexp[vi] = Some(req.now + *reset as i128); } }
+            }
             steps.push(st);
             if lim.dead { break; }
         }
